@@ -23,8 +23,9 @@ class Decoder1b(Decoder):
         
         # The compressed data with must be divisible by 16
         inc = (16 - ((w - padding_w)%16))%16
-        if w - padding_w + inc > width:
-            inc = 0
+        # Pixels of a row that belong to the image. The bits up to the next
+        # multiple of 16 are consumed with the row but are not pixels.
+        w_img = w - padding_w
         w = w - padding_w + inc
         logging.debug("w=%d, inc=%d", w, inc)
         
@@ -55,8 +56,9 @@ class Decoder1b(Decoder):
                                           +"(x=%s y=%s col=%s)", x, y, bitval)
                             break
                         
-                        p = y*width + x + padding_w
-                        data[p] = bitval
+                        if x < w_img:
+                            p = y*width + x + padding_w
+                            data[p] = bitval
                         x += 1
                 
                 if x >= w:
@@ -83,8 +85,9 @@ class Decoder1b(Decoder):
                                           bitval)
                             break
                         
-                        p = y*width + x + padding_w
-                        data[p] = bitval
+                        if x < w_img:
+                            p = y*width + x + padding_w
+                            data[p] = bitval
                         x += 1
     
                     idx = idx + 1
